@@ -34,6 +34,12 @@ pub struct BoxClient {
     pub held: Vec<Held>,
 }
 
+/// Serialize (feature `serde`) of a box: the same JSON as std's box
+fn json<T: serde::Serialize + ?Sized>(x: &T) -> String {
+    let _g = crate::simalloc::harness_scope();
+    serde_json::to_string(x).unwrap_or_else(|e| format!("error {}", e))
+}
+
 fn k<E: Elem>(e: &E) -> (u32, u32) {
     (e.eid(), e.etag())
 }
@@ -448,15 +454,16 @@ impl BoxClient {
                 let n = self.held.len();
                 match &self.held[*i % n] {
                     Held::U64(b, s) => ok2(
-                        b_call(|| Ret::Text(format!("{} {:?} {:5} {}", b, b, b, format!("{:p}", *b).starts_with("0x")))),
-                        s_call(|| Ret::Text(format!("{} {:?} {:5} {}", s, s, s, format!("{:p}", *s).starts_with("0x")))),
+                        b_call(|| Ret::Text(format!("{} {:?} {:5} {} {}", b, b, b, format!("{:p}", *b).starts_with("0x"), json(b)))),
+                        s_call(|| Ret::Text(format!("{} {:?} {:5} {} {}", s, s, s, format!("{:p}", *s).starts_with("0x"), json(s)))),
                     ),
                     Held::Str(b, s) => ok2(
                         b_call(|| Ret::Text(format!("{} {:?} {:>9}", b, b, b))),
                         s_call(|| Ret::Text(format!("{} {:?} {:>9}", s, s, s))),
                     ),
-                    Held::Tr(b, s) => ok2(b_call(|| Ret::Text(format!("{:?}", b))), s_call(|| Ret::Text(format!("{:?}", s)))),
+                    Held::Tr(b, s) => ok2(b_call(|| Ret::Text(format!("{:?} {}", b, json(b)))), s_call(|| Ret::Text(format!("{:?} {}", s, json(s))))),
                     Held::Slice(b, s) => ok2(b_call(|| Ret::Text(format!("{:?}", b))), s_call(|| Ret::Text(format!("{:?}", s)))),
+                    Held::Arr4(b, s) => ok2(b_call(|| Ret::Text(format!("{:?} {}", b, json(b)))), s_call(|| Ret::Text(format!("{:?} {}", s, json(s))))),
                     _ => ok2(Ok(Ret::Unit), Ok(Ret::Unit)),
                 }
             }
